@@ -5,7 +5,7 @@ from props.util import *
 TRUSTED = BASE_TRUSTED + ["ristretto under the group-law hypothesis (implementation-only runs)"]
 RULE = ("all subsets S of {1..n} (n<=6 quick / 8 thorough) with |S| >= t, in EVERY listing order for |S|<=3 (quick) / 4 and "
         "rotations+reversal above, t from 1 to |S|, on p=2039 and the 62-bit set (n<=12 sampled at 62 bits, a handful at 2048), plus high "
-        "trustee numbers with high thresholds (n = 12, 17, 20 with t = 10..20; 40 thorough) where trustee^(t-1) exceeds 2^32 and 2^64: "
+        "trustee numbers with high thresholds (n = 12, 17, 20 with t = 10..20; 90 of 130 trustees and trustees 70..139 with t = 66; 40 thorough) where trustee^(t-1) exceeds 2^32 and 2^64: "
         "lagrange, eval_poly, threshold::decryption_factor compared with the Gallina model; battery on implementation outputs: "
         "sum_i lambda_i P(i) = P(0) mod q, the combined factors decrypt the ciphertext, |S| = t-1 does not (62-bit and up)")
 
@@ -49,6 +49,10 @@ def run(env):
             plans.append((ctx, list(range(2, 13)), 11))
             plans.append((ctx, list(range(1, 18)), 17))
             plans.append((ctx, [20, 19, 18] + list(range(1, 18)), 20))
+            if pstr == "2039" or not env.quick:
+                # many trustees (trustee numbers above 64 / 100, thresholds above 64)
+                plans.append((ctx, r.sample(range(1, 131), 90), 90))
+                plans.append((ctx, list(range(70, 140)), 66))
             if not env.quick:
                 plans.append((ctx, r.sample(range(1, 41), 25), 25))
                 plans.append((ctx, list(range(40, 0, -1)), 40))
